@@ -49,7 +49,10 @@ def convert_value(value):
     if isinstance(value, str):
         return AnyValue(string_value=wire_safe(value))
     if isinstance(value, int):
-        return AnyValue(int_value=value)
+        if -2 ** 63 <= value < 2 ** 63:
+            return AnyValue(int_value=value)
+        # does not fit the 64 bit field (e.g. a 128 bit trace id): send the digits, not nothing
+        return AnyValue(string_value=str(value))
     if isinstance(value, float):
         return AnyValue(double_value=value)
     if isinstance(value, bytes):
@@ -62,12 +65,24 @@ def convert_value(value):
     return None
 
 
+def convert_key_value(key, value) -> KeyValue:
+    """
+    Convert one attribute.
+
+    :param key: the attribute key
+    :param value: the attribute value
+    :return: the attribute as GRPC type; a key that cannot be encoded (e.g. from a latin-1 environment) is escaped
+    """
+    return KeyValue(key=wire_safe(key) if isinstance(key, str) else wire_safe(str(key)), value=convert_value(value))
+
+
 def __value_as_dict(value):
-    return KeyValueList(values=[KeyValue(key=k, value=convert_value(v)) for k, v in value.items()])
+    return KeyValueList(values=[convert_key_value(k, v) for k, v in value.items()])
 
 
 def __value_as_list(value):
-    return ArrayValue(values=[convert_value(val) for val in value])
+    # an element we have no type for (None is a valid element of an attribute sequence) keeps its place, unset
+    return ArrayValue(values=[convert_value(val) or AnyValue() for val in value])
 
 
 def convert_resource(resource):
@@ -82,7 +97,7 @@ def convert_resource(resource):
 
 def __convert_attributes(attributes):
     return Resource(dropped_attributes_count=attributes.dropped,
-                    attributes=[KeyValue(key=k, value=convert_value(v)) for k, v in attributes.items()])
+                    attributes=[convert_key_value(k, v) for k, v in attributes.items()])
 
 
 def __convert_static_value(value):
